@@ -10,6 +10,18 @@ from . import common
 
 ID = 'C12'
 LEVEL = 'exploration'
+# scenario variants and fault kinds mixed into the seeded part (reported in
+# the evidence; DESIGN 14.6 says where each came from)
+VARIANTS = [
+    "directed single-pre-emption sweep of small scenarios",
+    "second Connection in the process",
+    "bursts of 301..650 queued packets",
+    "reused object: disconnect, immediate reconnect, queued writes, disconnect in the hand-over window",
+    "slow early outgoing listener (lock held up to 40 s)",
+    "send() stalls",
+    "protocol 47: keep-alive + Set Compression in one burst",
+    "unexpected-frame oracle"
+]
 RUNS = {'quick': 7000, 'thorough': 400000}
 WALL_CAP = {'quick': 150, 'thorough': 3000}
 
